@@ -154,6 +154,8 @@ func TestCheck(t *testing.T) {
 	r.Assume("renaming a directory into its own subtree is not generated: the code documents the missing cycle check as a TODO and the property does not define the outcome")
 	r.Assume("lazy materialisation of a directory's initial contents and discarding never-fetched contents may or may not move the change ID; every attach/detach must move it")
 	r.Assume("listing order is not compared; only the pagination rule (present throughout => exactly once; otherwise at most once; reported => present at that time)")
+	r.Assume("front ends (FUSE RawFileSystem, NFSv4.0, NFSv4.1): kernel-facing operations only; NFS handles of removed directories must be stale; operations on the handle of a fully unlinked leaf are skipped (whether it still resolves depends on NFS open state); under FUSE every symbolic link gets its own target (equal targets share an inode number but not an object)")
+	r.Assume("a case is abandoned (not judged) once a directory mutex is found held after a call returned: that is property C14's finding and any further call on that directory would block for ever")
 	for _, s := range situations {
 		r.Floor(s, 5)
 	}
